@@ -223,17 +223,17 @@ def shards(tier, props, known, files=None, lite=False):
              ("codeJlol", "codeJloo")]
     if tier == "thorough":
         pairs += [("md", "codeRes2"), ("raw", "codeDisp"), ("codeErr", "codeJsc")]
-        pairs += [(a, b) for a in ("codeA", "codeB", "md", "mdAtt", "codeJobj")
-                  for b in ALL_TEMPLATES if (a, b) not in pairs]
+        pairs += [("codeA", b) for b in ALL_TEMPLATES if ("codeA", b) not in pairs]
     for p in pairs:
         out.append(("make_related", "rel2-%s-%s" % p,
-                    dict(templates=p, actions="ACTIONS_PAIR" if tier == "quick" else "ACTIONS_FULL",
-                         inserts=1, nbacts=("keep", "md_edit"), files=files, **kw)))
+                    dict(templates=p, actions="ACTIONS_PAIR", inserts=1, nbacts=("keep", "md_edit"), files=files, **kw)))
     if tier == "thorough":
+        for p in [("codeA", "codeB"), ("md", "codeRes2")]:
+            out.append(("make_related", "rel2full-%s-%s" % p,
+                        dict(templates=p, actions="ACTIONS_QUICK", inserts=0, nbacts=("keep",), files=0, **kw)))
         for tr in [("codeA", "codeB", "md"), ("codeA", "codeA", "codeB"), ("mdAtt", "codeRes2", "raw")]:
             out.append(("make_related", "rel3-%s-%s-%s" % tr,
-                        dict(templates=tr, actions="ACTIONS_QUICK", inserts=2,
-                             nbacts=("keep",), files=7, **kw)))
+                        dict(templates=tr, actions="ACTIONS_PAIR", inserts=1, nbacts=("keep",), files=7, **kw)))
     un = [((), ("codeA",)), (("codeA",), ()), (("codeA", "md"), ("codeB", "raw")),
           (("codeA", "codeB"), ("codeB", "codeA")), (("codeJlol",), ("codeJloo",)),
           (("codeJobj",), ("codeJsc",)), (("mdAtt",), ("md",)), (("codeDisp", "codeErr"), ("codeRes2",))]
@@ -256,9 +256,9 @@ BOUNDS = {
     },
     "thorough": {
         "related-1": "as quick",
-        "related-2": "8 + 5x14 two-cell bases x ACTIONS_FULL per cell x <=1 insertion",
-        "related-3": "3 three-cell bases x ACTIONS_QUICK per cell x <=2 insertions",
-        "unrelated": "all pairs of one-cell skeletons over the 14 templates + 10 multi-cell pairs",
+        "related-2": "8 named two-cell bases plus codeA paired with every template x ACTIONS_PAIR (9 actions) per cell x <=1 insertion; 2 bases x ACTIONS_QUICK (20 actions) per cell",
+        "related-3": "3 three-cell bases x ACTIONS_PAIR per cell x <=1 insertion",
+        "unrelated": "all pairs of one-cell skeletons over the templates + 10 multi-cell pairs",
         "leaves": "as quick",
         "file interface": "on the model instance of every path (every 7th for three-cell bases)",
     },
